@@ -37,7 +37,7 @@ theorem extends_allocSlot (w : World) (self : Name) (sd : List (Name × Ref)) (h
     Extends h (allocSlot w self sd h s).1 := by
   unfold allocSlot
   split
-  · exact extends_alloc _ _
+  · exact ⟨_, rfl⟩
   · exact Extends.refl _
   · exact Extends.refl _
 
@@ -45,7 +45,7 @@ theorem extends_allocAcc (w : World) (self : Name) (sd : List (Name × Ref)) (st
     (ke : Name × EntryV) : Extends st.1 (allocAcc w self sd st ke).1 := by
   unfold allocAcc
   split
-  · exact (extends_allocSlot w self sd st.1 _).trans (extends_alloc _ _)
+  · exact (extends_allocSlot w self sd st.1 _).trans ⟨_, rfl⟩
   · exact Extends.refl _
 
 theorem extends_allocView (st : Heap × List (Name × Ref)) (nv : Name × AccView) :
@@ -692,5 +692,265 @@ theorem preserve_addEnum (T : Tables) (w : World) (i p m : Name) (hb : Bounded w
   · unfold addEnum
     repeat' split
     all_goals simp [enumHeap]
+
+
+/-! ### class definition keeps the invariants -/
+
+/-- reachable from an existing class -/
+def ClassReach (w : World) (x : Ref) : Prop := ∃ c, x ∈ reach w (.cls c)
+
+/-- the listed objects are new; everything reachable from them is new or belongs to an existing class -/
+def FreshOrInv (base : Nat) (P : Ref → Prop) (st : Heap × List (Name × Ref)) : Prop :=
+  base ≤ st.1.length ∧ ∀ nr ∈ st.2, (base ≤ nr.2 ∧ nr.2 < st.1.length) ∧
+    ∀ x ∈ reachAcc st.1 nr.2, (base ≤ x ∧ x < st.1.length) ∨ P x
+
+theorem FreshOrInv.extend {base : Nat} {P : Ref → Prop} {st : Heap × List (Name × Ref)} (hi : FreshOrInv base P st)
+    {h' : Heap} (he : Extends st.1 h') (n : Name) (r : Ref) (hr0 : base ≤ r ∧ r < h'.length)
+    (hr : ∀ x ∈ reachAcc h' r, (base ≤ x ∧ x < h'.length) ∨ P x) :
+    FreshOrInv base P (h', st.2 ++ [(n, r)]) := by
+  refine ⟨Nat.le_trans hi.1 he.len, ?_⟩
+  intro nr hnr
+  simp only [List.mem_append, List.mem_singleton] at hnr
+  rcases hnr with hold | rfl
+  · obtain ⟨h0, h1⟩ := hi.2 nr hold
+    refine ⟨⟨h0.1, Nat.lt_of_lt_of_le h0.2 he.len⟩, ?_⟩
+    intro x hx
+    rw [reachAcc_congr (he.get h0.2)] at hx
+    rcases h1 x hx with h | h
+    · exact Or.inl ⟨h.1, Nat.lt_of_lt_of_le h.2 he.len⟩
+    · exact Or.inr h
+  · exact ⟨hr0, hr⟩
+
+theorem reachAcc_new_dt (h : Heap) (t : DTree) : reachAcc (h ++ [Obj.dt t]) h.length = [h.length] := by
+  unfold reachAcc Heap.accAt; simp
+
+theorem freshOrInv_allocDecl (base : Nat) (P : Ref → Prop) (self : Name) (st : Heap × List (Name × Ref))
+    (ke : Name × EntryV) (hi : FreshOrInv base P st) : FreshOrInv base P (allocDecl self st ke) := by
+  unfold allocDecl
+  split
+  · split
+    · rename_i t _
+      simp only [alloc_heap, alloc_ref]
+      have hb := hi.1
+      apply hi.extend ⟨_, rfl⟩
+      · simp; omega
+      · intro x hx
+        rw [reachAcc_new_dt] at hx
+        simp only [List.mem_singleton] at hx
+        subst hx; left; simp; omega
+    · exact hi
+  · exact hi
+
+theorem freshOrInv_foldl {α : Type} (base : Nat) (P : Ref → Prop)
+    (f : Heap × List (Name × Ref) → α → Heap × List (Name × Ref))
+    (hf : ∀ st a, FreshOrInv base P st → FreshOrInv base P (f st a)) (l : List α) (st : Heap × List (Name × Ref))
+    (hi : FreshOrInv base P st) : FreshOrInv base P (l.foldl f st) := by
+  induction l generalizing st with
+  | nil => exact hi
+  | cons a l ih => exact ih _ (hf st a hi)
+
+theorem declDt_classReach {w : World} {c n : Name} {cr : ClassRec} {x : Ref} (hc : w.findClass c = some cr)
+    (hx : aget? cr.declDt n = some x) : ClassReach w x := by
+  refine ⟨c, root_reach (r := x) ?_ (self_mem_reachAcc _ _)⟩
+  simp only [World.roots, hc, List.mem_append, List.mem_map]
+  exact Or.inr ⟨(n, x), aget?_mem hx, rfl⟩
+
+theorem accRef_root {w : World} {c n : Name} {cr : ClassRec} {x : Ref} (hc : w.findClass c = some cr)
+    (hx : aget? cr.accRef n = some x) : x ∈ w.roots (.cls c) := by
+  simp only [World.roots, hc, List.mem_append, List.mem_map]
+  exact Or.inl (Or.inr ⟨(n, x), aget?_mem hx, rfl⟩)
+
+theorem resolve_ok {w : World} {self : Name} {sd : List (Name × Ref)} {base L : Nat}
+    (hsd : ∀ nr ∈ sd, base ≤ nr.2 ∧ nr.2 < L) {id : DtId} {x : Ref} (h : resolveDt w self sd id = some x) :
+    (base ≤ x ∧ x < L) ∨ ClassReach w x := by
+  cases id with
+  | copy c n => simp [resolveDt] at h
+  | decl c n =>
+    simp only [resolveDt] at h
+    split at h
+    · exact Or.inl (hsd _ (aget?_mem h))
+    · cases hc : w.findClass c with
+      | none => simp [hc] at h
+      | some cr =>
+        simp only [hc, Option.bind_some] at h
+        exact Or.inr (declDt_classReach hc h)
+
+theorem slotRef_ok {w : World} {self : Name} {sd : List (Name × Ref)} {base L : Nat}
+    (hsd : ∀ nr ∈ sd, base ≤ nr.2 ∧ nr.2 < L) {s : DtSlot} {x : Ref} (h : slotRef w self sd s = some x) :
+    (base ≤ x ∧ x < L) ∨ ClassReach w x := by
+  cases s with
+  | unset => simp [slotRef] at h
+  | cleared => simp [slotRef] at h
+  | set id t => exact resolve_ok hsd (by simpa [slotRef] using h)
+
+
+theorem allocSlot_ref_ok {w : World} {self : Name} {sd : List (Name × Ref)} {base : Nat} {h : Heap}
+    (hb : base ≤ h.length) (hsd : ∀ nr ∈ sd, base ≤ nr.2 ∧ nr.2 < h.length) (s : DtSlot) {x : Ref}
+    (hx : (allocSlot w self sd h s).2 = some x) :
+    (base ≤ x ∧ x < (allocSlot w self sd h s).1.length + 1) ∨ ClassReach w x := by
+  cases s with
+  | unset => simp [allocSlot] at hx
+  | cleared => simp [allocSlot] at hx
+  | set id t =>
+    cases id with
+    | copy c n =>
+      simp only [allocSlot, Option.some.injEq] at hx ⊢
+      subst hx
+      left
+      refine ⟨hb, ?_⟩
+      simp only [List.length_append, List.length_singleton]
+      exact Nat.lt_succ_of_lt (Nat.lt_succ_self _)
+    | decl c n =>
+      simp only [allocSlot] at hx ⊢
+      rcases resolve_ok hsd hx with h1 | h1
+      · left; exact ⟨h1.1, Nat.lt_succ_of_lt h1.2⟩
+      · exact Or.inr h1
+
+theorem freshOrInv_allocAcc (w : World) (self : Name) (sd : List (Name × Ref)) (base L0 : Nat)
+    (hsd : ∀ nr ∈ sd, base ≤ nr.2 ∧ nr.2 < L0) (st : Heap × List (Name × Ref)) (ke : Name × EntryV)
+    (hi : FreshOrInv base (ClassReach w) st ∧ L0 ≤ st.1.length) :
+    FreshOrInv base (ClassReach w) (allocAcc w self sd st ke) ∧ L0 ≤ (allocAcc w self sd st ke).1.length := by
+  have hext := extends_allocAcc w self sd st ke
+  refine ⟨?_, Nat.le_trans hi.2 hext.len⟩
+  unfold allocAcc
+  split
+  · rename_i a _
+    have hb := hi.1.1
+    have hsd' : ∀ nr ∈ sd, base ≤ nr.2 ∧ nr.2 < st.1.length := fun nr h =>
+      ⟨(hsd nr h).1, Nat.lt_of_lt_of_le (hsd nr h).2 hi.2⟩
+    have he1 := extends_allocSlot w self sd st.1 a.dt
+    have hl1 := he1.len
+    have hdref := fun x => allocSlot_ref_ok (w := w) (self := self) hb hsd' a.dt (x := x)
+    have hlen2 : ((allocSlot w self sd st.1 a.dt).1 ++
+        [Obj.acc (accObj w self sd a (allocSlot w self sd st.1 a.dt).2)]).length =
+        (allocSlot w self sd st.1 a.dt).1.length + 1 := by simp
+    generalize hLh : (allocSlot w self sd st.1 a.dt).1.length = Lh at hl1 hdref hlen2
+    have hbig : ∀ y, base ≤ y → y < Lh + 1 → (base ≤ y ∧ y < ((allocSlot w self sd st.1 a.dt).1 ++
+        [Obj.acc (accObj w self sd a (allocSlot w self sd st.1 a.dt).2)]).length) ∨ ClassReach w y :=
+      fun y h1 h2 => Or.inl ⟨h1, by rw [hlen2]; exact h2⟩
+    apply hi.1.extend (he1.trans ⟨_, rfl⟩)
+    · exact ⟨Nat.le_trans hb hl1, by rw [hlen2]; exact Nat.lt_succ_self _⟩
+    · intro x hx
+      rw [← hLh, reachAcc_new] at hx
+      simp only [List.mem_cons, List.mem_append, Option.mem_toList] at hx
+      rcases hx with hx | (hx | hx) | hx
+      · rw [hLh] at hx; subst hx; exact hbig _ (Nat.le_trans hb hl1) (Nat.lt_succ_self _)
+      · rcases hdref x hx with h1 | h1
+        · exact hbig x h1.1 h1.2
+        · exact Or.inr h1
+      · rcases slotRef_ok hsd' (s := a.ownDt) hx with h1 | h1
+        · exact hbig x h1.1 (Nat.lt_succ_of_lt (Nat.lt_of_lt_of_le h1.2 hl1))
+        · exact Or.inr h1
+      · simp only [accObj, mergedRef] at hx
+        split at hx
+        · rcases slotRef_ok hsd' hx with h1 | h1
+          · exact hbig x h1.1 (Nat.lt_succ_of_lt (Nat.lt_of_lt_of_le h1.2 hl1))
+          · exact Or.inr h1
+        · simp at hx
+  · exact hi.1
+
+theorem freshOrInv_layoutAcc (w : World) (self : Name) (sd : List (Name × Ref)) (base L0 : Nat)
+    (hsd : ∀ nr ∈ sd, base ≤ nr.2 ∧ nr.2 < L0) (l : List (Name × EntryV)) (st : Heap × List (Name × Ref))
+    (hi : FreshOrInv base (ClassReach w) st ∧ L0 ≤ st.1.length) :
+    FreshOrInv base (ClassReach w) (l.foldl (allocAcc w self sd) st) := by
+  induction l generalizing st with
+  | nil => exact hi.1
+  | cons a l ih => exact ih _ (freshOrInv_allocAcc w self sd base L0 hsd st a hi)
+
+
+theorem accessibleRef_ok {w : World} {self : Name} {own : List (Name × Ref)} {ns : Name × SlotV} {nr : Name × Ref}
+    (h : accessibleRef w self own ns = some nr) :
+    nr ∈ own ∨ ∃ c, nr.2 ∈ w.roots (.cls c) := by
+  unfold accessibleRef at h
+  split at h
+  · cases hg : aget? own ns.1 with
+    | none => simp [hg] at h
+    | some r =>
+      simp only [hg, Option.map_some, Option.some.injEq] at h
+      subst h
+      exact Or.inl (aget?_mem hg)
+  · cases hc : w.findClass ns.2.owner with
+    | none => simp [hc] at h
+    | some cr =>
+      cases hg : aget? cr.accRef ns.1 with
+      | none => simp [hc, hg] at h
+      | some r =>
+        simp only [hc, Option.bind_some, hg, Option.map_some, Option.some.injEq] at h
+        subst h
+        exact Or.inr ⟨_, accRef_root hc hg⟩
+
+theorem dictAccs_mem {own : List (Name × Ref)} {dict : List (Name × EntryV)} {nr : Name × Ref}
+    (h : nr ∈ dictAccs own dict) : nr ∈ own := by
+  unfold dictAccs at h
+  obtain ⟨ke, _, hke⟩ := List.mem_filterMap.1 h
+  split at hke
+  · cases hg : aget? own ke.1 with
+    | none => simp [hg] at hke
+    | some r =>
+      simp only [hg, Option.map_some, Option.some.injEq] at hke
+      subst hke
+      exact aget?_mem hg
+  · simp at hke
+
+/-- a new class reaches only new objects and objects of existing classes -/
+theorem preserve_define (T : Tables) (w : World) (d : ClassDecl) (hadm : w.findClass d.name = none)
+    (hb : Bounded w) (hs : Separated w) :
+    Bounded (defineClass T w d) ∧ Separated (defineClass T w d) := by
+  have hname : (pureDefine T (chainOf w d) d).decl.name = d.name := by rw [pureDefine_decl]
+  unfold defineClass
+  generalize hcv : pureDefine T (chainOf w d) d = cv at hname
+  have hrec : ∀ o, o ≠ Owner.cls d.name → (layout w cv).roots o = w.roots o := by
+    intro o ho
+    have := (records_step T w (.define d) o ho).2
+    simpa only [step, defineClass, hcv] using this
+  apply preserve_of_fresh w (layout w cv) (.cls d.name) (extends_layout w cv) hrec hb hs
+  intro r hr
+  have hfind : (layout w cv).findClass d.name = some (layoutRec w cv) := by
+    have := findClass_layout_new w cv (by rw [hname]; exact hadm)
+    rwa [hname] at this
+  have s1inv : FreshOrInv w.heap.length (ClassReach w) (layoutDecl w cv) :=
+    freshOrInv_foldl _ _ _ (freshOrInv_allocDecl _ _ _) cv.dict (w.heap, []) ⟨Nat.le_refl _, by simp⟩
+  have hsd : ∀ nr ∈ (layoutDecl w cv).2, w.heap.length ≤ nr.2 ∧ nr.2 < (layoutDecl w cv).1.length :=
+    fun nr h => (s1inv.2 nr h).1
+  have s2inv : FreshOrInv w.heap.length (ClassReach w) (layoutAcc w cv (layoutDecl w cv)) :=
+    freshOrInv_layoutAcc w cv.decl.name _ _ _ hsd cv.dict ((layoutDecl w cv).1, [])
+      ⟨⟨s1inv.1, by simp⟩, Nat.le_refl _⟩
+  have he12 : Extends (layoutDecl w cv).1 (layoutAcc w cv (layoutDecl w cv)).1 :=
+    extends_foldl _ (extends_allocAcc _ _ _) cv.dict ((layoutDecl w cv).1, [])
+  have hheap : (layout w cv).heap = (layoutAcc w cv (layoutDecl w cv)).1 := rfl
+  -- objects of the new class: from pass 2
+  have own2 : ∀ nr ∈ (layoutAcc w cv (layoutDecl w cv)).2, ∀ x ∈ reachAcc (layout w cv).heap nr.2,
+      (w.heap.length ≤ x ∧ x < (layout w cv).heap.length) ∨ ClassReach w x := by
+    intro nr hnr x hx
+    rw [hheap] at hx ⊢
+    exact (s2inv.2 nr hnr).2 x hx
+  unfold reach at hr
+  simp only [World.roots, hfind] at hr
+  obtain ⟨root, hroot, hx⟩ := List.mem_flatMap.1 hr
+  have hgoal : (w.heap.length ≤ r ∧ r < (layout w cv).heap.length) ∨ ClassReach w r := by
+    simp only [List.mem_append, List.mem_map] at hroot
+    rcases hroot with (⟨nr, hnr, rfl⟩ | ⟨nr, hnr, rfl⟩) | ⟨nr, hnr, rfl⟩
+    · -- an accessible
+      have hcases : nr ∈ (layoutAcc w cv (layoutDecl w cv)).2 ∨ ∃ c, nr.2 ∈ w.roots (.cls c) := by
+        simp only [layoutRec, layoutAccessibles] at hnr
+        split at hnr
+        · obtain ⟨ns, _, hns⟩ := List.mem_filterMap.1 hnr
+          exact accessibleRef_ok hns
+        · exact Or.inl (dictAccs_mem hnr)
+      rcases hcases with h | ⟨c, hc⟩
+      · exact own2 nr h r hx
+      · right
+        rw [reachAcc_congr ((extends_layout w cv).get (root_lt hb hc))] at hx
+        exact ⟨c, root_reach hc hx⟩
+    · exact own2 nr hnr r hx
+    · -- a declared datatype object
+      have hlt := (s1inv.2 nr hnr).1.2
+      rw [hheap, reachAcc_congr (he12.get hlt)] at hx
+      rcases (s1inv.2 nr hnr).2 r hx with h | h
+      · left; rw [hheap]; exact ⟨h.1, Nat.lt_of_lt_of_le h.2 he12.len⟩
+      · exact Or.inr h
+  rcases hgoal with h | ⟨c, hc⟩
+  · exact Or.inl h
+  · exact Or.inr ⟨⟨d.name, rfl⟩, c, hc⟩
 
 end Frappy.Klass
